@@ -160,6 +160,9 @@ type c26Scen struct {
 	// goroutines sharing ONE client (after a first successful Version call).
 	clients [][]c26Op
 	shared  bool
+	// connLoss adds a fault actor that severs the first connection at a point chosen by the
+	// scheduler (any point after it exists): a call in flight then fails or is retried.
+	connLoss bool
 }
 
 func c26Scens() []c26Scen {
@@ -167,11 +170,13 @@ func c26Scens() []c26Scen {
 	del := func(s int) c26Op { return c26Op{kind: "del", seq: s} }
 	next, list, prev := c26Op{kind: "next"}, c26Op{kind: "list"}, c26Op{kind: "prev"}
 	return []c26Scen{
-		{"2x2-add-list-add-next", nil, [][]c26Op{{add("a"), list}, {add("b"), next}}, false},
-		{"3x1-add-add-del", []string{"z"}, [][]c26Op{{add("a")}, {add("b")}, {del(1)}}, false},
-		{"shared-client-2-adds", nil, [][]c26Op{{add("a")}, {add("b")}}, true},
-		{"2x2-add-del-prev-list", []string{"z"}, [][]c26Op{{add("a"), del(1)}, {prev, list}}, false},
-		{"2x2-adds", nil, [][]c26Op{{add("a"), add("b")}, {add("c"), add("d")}}, false},
+		{"2x2-add-list-add-next", nil, [][]c26Op{{add("a"), list}, {add("b"), next}}, false, false},
+		{"3x1-add-add-del", []string{"z"}, [][]c26Op{{add("a")}, {add("b")}, {del(1)}}, false, false},
+		{"shared-client-2-adds", nil, [][]c26Op{{add("a")}, {add("b")}}, true, false},
+		{"2x2-add-del-prev-list", []string{"z"}, [][]c26Op{{add("a"), del(1)}, {prev, list}}, false, false},
+		{"2x2-adds", nil, [][]c26Op{{add("a"), add("b")}, {add("c"), add("d")}}, false, false},
+		{"connection-lost-during-adds", nil, [][]c26Op{{add("a"), add("b")}, {add("c")}}, false, true},
+		{"connection-lost-add-then-list", nil, [][]c26Op{{add("a"), list}, {next}}, false, true},
 	}
 }
 
@@ -202,10 +207,19 @@ func c26Body(sc c26Scen) func() {
 		}
 		server := rpc.NewServer()
 		server.RegisterName(api.ServiceName, &service{api.Version, st, nil})
+		var serverConns []net.Conn
 		vsched.DialHook = func(network, addr string) (net.Conn, error) {
 			c1, c2 := vsched.Pipe()
+			serverConns = append(serverConns, c2)
 			vsched.Go(func() { server.ServeConn(c2) })
 			return c1, nil
+		}
+		if sc.connLoss {
+			vsched.Go(func() {
+				vsched.WaitUntil("first-connection-exists", func() bool { return len(serverConns) > 0 })
+				serverConns[0].Close()
+				vsched.Logf("fault: first connection severed")
+			})
 		}
 		clock := 0
 		var events []*c26Event
@@ -305,12 +319,14 @@ func c26Linearizable(sc c26Scen, log []string) (bool, string) {
 			if !ok {
 				continue
 			}
+			failed := strings.HasPrefix(evs[i].obs, "err:")
 			m2 := m.clone()
-			if m2.apply(evs[i].op) != evs[i].obs {
+			if got := m2.apply(evs[i].op); got != evs[i].obs && !failed {
 				continue
 			}
 			used[i] = true
-			if rec(m2, k+1) {
+			// a call that returned an error (connection lost) may or may not have taken effect
+			if rec(m2, k+1) || (failed && rec(m, k+1)) {
 				used[i] = false
 				return true
 			}
@@ -344,9 +360,11 @@ func c26Scenarios() []vshard.Scenario {
 			if r.Panics > 0 {
 				return "panic", fmt.Sprint(r.Log)
 			}
-			for _, l := range r.Log {
-				if strings.Contains(l, "=err:") {
-					return "operation-failed", l
+			if !sc.connLoss {
+				for _, l := range r.Log {
+					if strings.Contains(l, "=err:") {
+						return "operation-failed", l
+					}
 				}
 			}
 			if ok, why := c26Linearizable(sc, r.Log); !ok {
@@ -368,7 +386,7 @@ func TestVerifC26(t *testing.T) {
 		return
 	}
 	vk.Run(t, "C26", "exploration", func(c *vk.Ctx) {
-		c.Rule(fmt.Sprintf("5 closed worlds: the real rpc.Server + daemon service + bbolt store, 2-3 real daemon clients (one scenario: two goroutines sharing one client) issuing AddCmd/DelCmd/NextCmdSeq/CmdsWithSeq/PrevCmd over in-memory scheduler-aware connections; every schedule with <=%d departures from the default goroutine; each complete call/return history plus the final store content must be linearizable w.r.t. the sequential store model (brute force over all orders); class = distinct (scenario, history)", cfg.Bound))
+		c.Rule(fmt.Sprintf("7 closed worlds (two of them with a fault actor that severs a connection at a scheduler-chosen point; a call that then returns an error may or may not have taken effect, a call that returns success must have taken effect exactly once): the real rpc.Server + daemon service + bbolt store, 2-3 real daemon clients (one scenario: two goroutines sharing one client) issuing AddCmd/DelCmd/NextCmdSeq/CmdsWithSeq/PrevCmd over in-memory scheduler-aware connections; every schedule with <=%d departures from the default goroutine; each complete call/return history plus the final store content must be linearizable w.r.t. the sequential store model (brute force over all orders); class = distinct (scenario, history)", cfg.Bound))
 		c.Assume("pkg/daemon, pkg/rpc rewritten for the controlled scheduler; scheduling points before every db.Update/db.View in pkg/store; bbolt's own transaction isolation is trusted (no points inside bbolt); net.Dial is replaced by an in-memory duplex connection whose reads are scheduling points")
 		vshard.Run(c, c26Scenarios(), cfg)
 	})
